@@ -356,6 +356,7 @@ type C16Elems struct {
 	PItems []*C16Item
 	ByName map[string]C16Item
 }
+
 // an embedded struct that itself embeds a user-defined scalar: the scalar's flattened name is empty (P18, repaired together with P13)
 type C16Inner struct{ NInt8 }
 type C16EmbEmb struct {
